@@ -711,8 +711,12 @@ class PKey:
             decryptor = Cipher(
                 algorithms.AES(key), mode(iv), default_backend()
             ).decryptor()
-            decrypted_privkey = decryptor.update(privkey_blob)
-            decrypted_privkey += decryptor.finalize()
+            try:
+                decrypted_privkey = decryptor.update(privkey_blob)
+                decrypted_privkey += decryptor.finalize()
+            except ValueError as e:
+                # CBC: not a multiple of the block size
+                raise SSHException(str(e))
         elif cipher == b("none") and kdfname == b("none"):
             # Unencrypted private key
             decrypted_privkey = privkey_blob
